@@ -1,0 +1,24 @@
+//go:build verif
+
+// Contracts for the deductive verifier in /verif (comment-only file; see /verif/DESIGN.md).
+package leavegroup
+
+//@ property C04
+
+// Wire layout per version, from the Kafka protocol definition of this API (field order, types and the versions each field
+// exists in); the encoders and decoders are compiled from the struct tags, so the tags are checked against it.
+//@ wire Request
+//@   layout v0..v2 GroupID string, MemberID string
+//@   layout v3 GroupID string, Members []RequestMember
+//@   layout v4 _ struct{} @-1, GroupID string, Members []RequestMember
+//@ wire RequestMember
+//@   layout v3 MemberID string, GroupInstanceID string?
+//@   layout v4 _ struct{} @-1, MemberID string, GroupInstanceID string?
+//@ wire Response
+//@   layout v0 ErrorCode int16
+//@   layout v1..v2 ThrottleTimeMS int32, ErrorCode int16
+//@   layout v3 ThrottleTimeMS int32, ErrorCode int16, Members []ResponseMember
+//@   layout v4 _ struct{} @-1, ThrottleTimeMS int32, ErrorCode int16, Members []ResponseMember
+//@ wire ResponseMember
+//@   layout v3 MemberID string, GroupInstanceID string?, ErrorCode int16
+//@   layout v4 _ struct{} @-1, MemberID string, GroupInstanceID string?, ErrorCode int16
